@@ -334,6 +334,32 @@ def h_misc_containers(ctx, D, P):
                 ctx.eq(C[d, p, :1, 1:], np.zeros((1, 2)), 'constant block, coefficient %d is zero, direction %d' % (d, p))
 
 
+def h_seed_inttypes(ctx, dt):
+    """seed points of a non-default integer dtype (int32, int16, uint8: index arithmetic, image
+    data) with real direction vectors: base point and directions are kept exactly.  Concrete
+    data: decided on the float build."""
+    algopy = symx.load_algopy()
+    UTPM = algopy.UTPM
+    if ctx.mode == 'sym':
+        ctx.fact(True, 'concrete integer-typed data: decided on the float build')
+        ctx.eq(S.const(0), S.const(0), 'seed kept')
+        return
+    x = np.array([1, 2, 3], dtype=getattr(np, dt))
+    v = np.array([0.5, -1.25, 2.75])
+    u = UTPM.init_jac_vec(x, v)
+    ctx.eq(plain(u.data)[0, 0], x.astype(float), 'init_jac_vec base point (%s)' % dt)
+    ctx.eq(plain(u.data)[1, 0], v, 'init_jac_vec direction (%s)' % dt)
+    ctx.eq(np.asarray(UTPM.extract_jac_vec(u * u)), 2 * x.astype(float) * v, 'J v of x*x (%s)' % dt)
+    h = UTPM.init_hess_vec(x, v)
+    ctx.eq(plain(h.data)[0, 0], x.astype(float), 'init_hess_vec base point (%s)' % dt)
+    uj = UTPM.init_jacobian(x)
+    J = np.asarray(UTPM.extract_jacobian(-(uj * uj * uj)))
+    ctx.eq(J, np.diag(-3.0 * x.astype(float) ** 2), 'Jacobian of -x**3 (%s)' % dt)
+    uh = UTPM.init_hessian(x)
+    H = np.asarray(UTPM.extract_hessian(3, -algopy.sum(uh * uh * uh)))
+    ctx.eq(H, np.diag(-6.0 * x.astype(float)), 'Hessian of -sum(x**3) (%s)' % dt)
+
+
 def h_shift(ctx, D, P, s):
     algopy = symx.load_algopy()
     X = _vars(ctx, 'x', (D, P, 2))
@@ -491,6 +517,8 @@ def units(tier, seed):
         add('complex polynomials/%s/D2,P2' % what, 'h_complex', what=what, D=2, P=2)
     add('containers/combine_blocks with a P=1 block/D2,P3', 'h_combine_mixed', D=2, P=3)
     add('dirs/integer-typed directions, non-integer base point/D3,P2', 'h_dirs_intV', D=3, P=2)
+    for dt in ('int32', 'int16', 'uint8', 'int64'):
+        add('seeds/base point of dtype %s' % dt, 'h_seed_inttypes', dt=dt)
     add('containers/permuted object arrays/D2,P2', 'h_as_utpm_views', D=2, P=2)
     add('pivots/UTPM.piv2mat+piv2det/n2,P2', 'h_pivots_utpm', opts={'path_budget': 200}, n=2, P=2)
     add('pivots/UTPM.piv2mat+piv2det/n3,P2', 'h_pivots_utpm', opts={'path_budget': 400, 'validate_paths': 6}, n=3, P=2)
